@@ -328,7 +328,7 @@ func (cs *Contracts) ParseFile(path string) error {
 			if len(fs) < 2 {
 				return fmt.Errorf("%s:%d: global needs name and kind", path, rc.line)
 			}
-			cs.Globals[pkg+"."+fs[0]] = &GlobalSpec{Name: pkg + "." + fs[0], Kind: fs[1]}
+			cs.Globals[pkg+"."+fs[0]] = &GlobalSpec{Name: pkg + "." + fs[0], Kind: strings.TrimSpace(strings.TrimPrefix(rc.rest, fs[0]))}
 		case "axiom":
 			cs.Axioms = append(cs.Axioms, AxiomSpec{Clause: parseClause(rc.rest, path, rc.line), Pkg: pkg})
 		default:
